@@ -1,9 +1,152 @@
-import Ivg.Model.Decoder
-import Ivg.Model.Arc
-import Ivg.Model.MdIcons
+import Ivg.Lemmas.EncoderProto
 import Ivg.Gen.Tie
 import Ivg.Obligations
-/-! # Property C10 — theorems (work in progress: tie obligations only so far) -/
+/-!
+# C10 — the Encoder reports an error exactly when the call protocol was violated
+
+Property text: "An Encoder's Bytes reports an error exactly when the call history since the last
+Reset violated the protocol: a drawing operation outside a path, a styling operation or new path
+inside an open path, a register adjustment above 6, or an incrementing form with non-zero
+adjustment. The first violation is kept until Reset whatever is called afterwards; every
+violation-free history with all paths ended (and a valid viewBox) yields a stream the decoder accepts
+and that decodes to that history; and a zero-value Encoder behaves as one reset with the default
+metadata."
+
+The protocol is specified independently of the Encoder model by the four-state automaton of
+`Ivg/Spec/Protocol.lean` (`Spec.Protocol.pstep`, `prun`), written from the text above.  The theorems
+are about the executable model `Ivg.Enc.Encoder` (`Ivg/Model/Encoder.lean`), tied to /repo by the
+differential suite and by `Gen.Tie.errorStrings_tie` (the four error values), `drawOps_tie`, `magic_tie`.
+Histories range over the WHOLE API: the 26 delivering methods (`EncOp.call`), `CSel()`, `NSel()`,
+`LOD()`, `Bytes()` and assignments to the exported field `HighResolutionCoordinates`.
+-/
 namespace Ivg.Props.C10
+open Ivg Ivg.Num Ivg.Enc Ivg.Spec.Protocol Ivg.EncoderProto
+
+/-- Refinement (the basis of everything below): every use of the API moves the abstraction of the
+    Encoder (`abs`: `failed k` if `err = k`, else by `mode`) along the protocol automaton.
+    `Inv e` is the reachability invariant "an error recorded while a path is open is
+    `errStylingOpsUsedInDrawingMode`"; it holds of the zero value, after every Reset, and is
+    preserved by everything (`inv_preserved`).  It is needed: `checkModeStyling` overwrites `err`
+    in drawing mode, see the counterexample below. -/
+theorem refinement (e : Encoder) (hinv : Inv e) (op : EncOp) :
+    abs (e.stepOp op).1 = pstep (abs e) (classify op) := refine_op e hinv op
+theorem inv_preserved (e : Encoder) (hinv : Inv e) (op : EncOp) : Inv (e.stepOp op).1 := inv_op e hinv op
+theorem inv_initially : Inv ({} : Encoder) ∧ ∀ (e : Encoder) vb pal, Inv (e.step (.reset vb pal)) :=
+  ⟨inv_zero, fun _ _ _ => inv_of_err_none rfl⟩
+-- a state satisfying the invariant, with an open path and an error
+example : Inv ((({} : Encoder).step (.startPath 0 F32.zero F32.zero)).step (.setCSel 1)) ∧
+    ((({} : Encoder).step (.startPath 0 F32.zero F32.zero)).step (.setCSel 1)).err =
+      some .stylingOpsUsedInDrawingMode := by
+  constructor
+  · intro _; right; decide
+  · decide
+-- the invariant is necessary for "the first violation is kept": on this UNREACHABLE state a styling
+-- call replaces the recorded error
+example : ¬ Inv { err := some .invalidSelectorAdjustment, mode := .drawing } ∧
+    (({ err := some .invalidSelectorAdjustment, mode := .drawing } : Encoder).step (.setCSel 1)).err =
+      some .stylingOpsUsedInDrawingMode := by
+  constructor
+  · intro h; have := h rfl; simp at this
+  · decide
+
+/-- Clause "Bytes reports an error exactly when the call history … violated the protocol", from the
+    zero value: after the history `h`, `Bytes()` returns the error `k` iff the automaton run on `h`
+    ends in `failed k` — so the error reported is the one of the FIRST violation. -/
+theorem bytes_error_iff (h : List EncOp) (k : EncErr) :
+    (({} : Encoder).runOps h).1.bytes.2 = .error k ↔ prun .fresh (h.map classify) = .failed (kindOf k) :=
+  EncoderProto.bytes_error_iff h k
+example : (({} : Encoder).runOps [.call (.setCReg 7 true (Color.rgbaColor ⟨0, 0, 0, 0xff⟩))]).1.bytes.2 =
+    .error .invalidSelectorAdjustment := by rfl
+example : (({} : Encoder).runOps [.readCSel, .call (.setNReg 2 true F32.zero), .call .closeEnd]).1.bytes.2 =
+    .error .invalidIncrementingAdjustment := by rfl
+
+/-- … and returns bytes (no error) iff the history is violation free. -/
+theorem bytes_ok_iff (h : List EncOp) :
+    (∃ b, (({} : Encoder).runOps h).1.bytes.2 = .ok b) ↔ (prun .fresh (h.map classify)).isFailed = false :=
+  EncoderProto.bytes_ok_iff h
+set_option maxRecDepth 100000 in
+example : (({} : Encoder).runOps [.call (.startPath 0 F32.zero F32.zero), .bytes, .setHiRes true,
+    .call (.d1 .H F32.zero), .call .closeEnd]).1.bytes.2.toOption =
+      some [0x89, 0x49, 0x56, 0x47, 0, 0xc0, 0x80, 0x80, 0xe6, 0x80, 0xe1] := by
+  decide +kernel
+
+/-- "since the last Reset": the same from ANY state `e₀` (reachable or not, with or without an error
+    recorded) that is then Reset — only the uses `h` after the Reset count. -/
+theorem bytes_error_iff_after_reset (e₀ : Encoder) (vb : ViewBox F32) (pal : Palette) (h : List EncOp)
+    (k : EncErr) :
+    ((e₀.step (.reset vb pal)).runOps h).1.bytes.2 = .error k ↔
+      prun .styling (h.map classify) = .failed (kindOf k) :=
+  EncoderProto.bytes_error_iff_after_reset e₀ vb pal h k
+
+/-- the error held in the state, Boolean form -/
+theorem err_iff_violation (h : List EncOp) :
+    (({} : Encoder).runOps h).1.err.isSome = (prun .fresh (h.map classify)).isFailed :=
+  EncoderProto.err_iff_violation h
+
+/-- Clause "The first violation is kept until Reset whatever is called afterwards": once an error
+    `k` is recorded, after ANY further uses of the API other than Reset the error is still `k` and
+    `Bytes()` reports `k`. -/
+theorem first_violation_kept (e : Encoder) (hinv : Inv e) (k : EncErr) (herr : e.err = some k)
+    (ops : List EncOp) (hops : ∀ op ∈ ops, classify op ≠ .reset) :
+    (e.runOps ops).1.err = some k ∧ (e.runOps ops).1.bytes.2 = .error k :=
+  first_error_kept_run e hinv k herr ops hops
+example : Inv (({} : Encoder).step .closeEnd) ∧
+    (({} : Encoder).step .closeEnd).err = some .drawingOpsUsedInStylingMode ∧
+    ∀ op ∈ [EncOp.call (.setCSel 70), .bytes, .call (.startPath 9 F32.zero F32.zero)], classify op ≠ .reset := by
+  refine ⟨inv_op _ inv_zero (.call .closeEnd), by decide, ?_⟩
+  intro op hop
+  simp at hop
+  rcases hop with rfl | rfl | rfl <;> simp [classify, classifyCall]
+/-- `classify op = .reset` exactly for calls of `Reset`. -/
+theorem reset_classification (op : EncOp) :
+    classify op = .reset ↔ ∃ vb pal, op = .call (.reset vb pal) := classify_reset_iff op
+
+/-- "until Reset": Reset clears the error, from any state. -/
+theorem reset_clears_error (e : Encoder) (vb : ViewBox F32) (pal : Palette) :
+    (e.step (.reset vb pal)).err = none ∧ abs (e.step (.reset vb pal)) = .styling := ⟨rfl, rfl⟩
+
+/-- Clause "a zero-value Encoder behaves as one reset with the default metadata": for EVERY history
+    `h` over the whole API, the zero value and an Encoder (in any state `e₀`) after
+    `Reset(DefaultViewBox, DefaultPalette)` yield the same observations — identical if `h` contains no
+    `LOD()` read, identical up to the second component of `LOD()` results otherwise (`obsErase`) —
+    and `Bytes()` then returns the same result.  The exception is real, see below. -/
+theorem zero_value_is_default_reset (e₀ : Encoder) (h : List EncOp) :
+    ((∀ op ∈ h, op ≠ .readLOD) →
+      (({} : Encoder).runOps h).2 = ((e₀.step (.reset defaultViewBox defaultPalette)).runOps h).2) ∧
+    (({} : Encoder).runOps h).2.map obsErase =
+      ((e₀.step (.reset defaultViewBox defaultPalette)).runOps h).2.map obsErase ∧
+    (({} : Encoder).runOps h).1.bytes.2 =
+      ((e₀.step (.reset defaultViewBox defaultPalette)).runOps h).1.bytes.2 :=
+  EncoderProto.zero_value_is_default_reset e₀ h
+example : ∀ op ∈ [EncOp.setHiRes true, .readCSel, .call (.startPath 0 F32.zero F32.zero), .bytes], op ≠ .readLOD := by
+  intro op hop; simp at hop; rcases hop with rfl | rfl | rfl | rfl <;> simp
+/-- The documented deviation (outside the property's observables, which are the bytes): the zero
+    value's `LOD()` reports `(0, 0)`, an Encoder reset with the default metadata reports `(0, +Inf)`. -/
+theorem zero_value_lod_deviation :
+    ({} : Encoder).readLOD.2 = (F32.zero, F32.zero) ∧
+    ((({} : Encoder).step (.reset defaultViewBox defaultPalette)).readLOD).2 = (F32.zero, F32.posInf) := by
+  constructor
+  · rfl
+  · rw [reset_default]; rfl
+
+/-!
+## Not proved in this file
+
+* "every violation-free history with all paths ended (and a valid viewBox) yields a stream the decoder
+  accepts and that decodes to that history": this is the encode/decode round trip, property C01
+  (`Ivg/Props/C01.lean`); nothing about the decoder is proved here.
+* The automaton `Spec.Protocol.pstep` IS the formal reading of "violated the protocol"; its agreement
+  with the English text is by inspection (see the `example`s in `Ivg/Spec/Protocol.lean`).
+* Go-level aliasing is outside the model: `Bytes()` returns a slice that aliases the Encoder's buffer,
+  which `Reset` reuses (`e.buf[:0]`).
+-/
+
 end Ivg.Props.C10
-#obligations C10 [Ivg.Gen.Tie.drawOps_tie, Ivg.Gen.Tie.magic_tie, Ivg.Gen.Tie.errorStrings_tie]
+
+#obligations C10 [
+  Ivg.Props.C10.refinement, Ivg.Props.C10.inv_preserved, Ivg.Props.C10.inv_initially,
+  Ivg.Props.C10.bytes_error_iff, Ivg.Props.C10.bytes_ok_iff, Ivg.Props.C10.bytes_error_iff_after_reset,
+  Ivg.Props.C10.err_iff_violation, Ivg.Props.C10.first_violation_kept, Ivg.Props.C10.reset_classification,
+  Ivg.Props.C10.reset_clears_error, Ivg.Props.C10.zero_value_is_default_reset,
+  Ivg.Props.C10.zero_value_lod_deviation,
+  Ivg.Gen.Tie.errorStrings_tie, Ivg.Gen.Tie.drawOps_tie, Ivg.Gen.Tie.magic_tie]
